@@ -191,6 +191,7 @@ def get(prog):
                 tp[(fn_, ai.kname[kb])] |= cls_
     r.token_parent = {k: sorted(v) for k, v in tp.items()}
     r.edge_first = dict(ai.edge_first)
+    r.node_tokens = dict(ai.node_tokens)      # completed-kind mask -> mask of token kinds consumed directly under the marker
     r.cm_kinds = dict(ai.cm_kinds)
     r.allkinds = {d: n for n, d in prog.enum_variants("oq3_parser::syntax_kind::syntax_kind_enum::SyntaxKind")}
     r.callargs = {k: sorted(v, key=repr) for k, v in ai.callargs.items()}
